@@ -167,7 +167,7 @@ def register(reg):
         "process death at every harness event (and, thorough, before every file-mutating syscall), then a recovery oracle",
         "The writer is forked once per crash index and dies by os._exit at every event (objective entry/exit, before/after each "
         "connect, execute, commit) of a serial sweep, an NSGA-II run and a 2-worker sweep under every schedule within the "
-        "pre-emption bound; the thorough tier re-runs the serial histories under strace and SIGKILLs the process before every "
+        "pre-emption bound (quick: <=1 plus the bound-2 schedules with first-in-first-out overlapping objective calls; thorough: <=2); the thorough tier re-runs the serial histories under strace and SIGKILLs the process before every "
         "pwrite64/unlink/... so death inside a commit is covered. Further histories: transient failures, a foreign lock holder, "
         "gradient children, transactions larger than the page cache, rewrite mode, two studies on one store, leftovers of an earlier "
         "killed run, a moved design. Every corpse is recovered in up to three ways (view at once, view two days later, run resumed "
